@@ -1234,10 +1234,10 @@ fn main() {
     let mut rng = Rng::new(args.seed);
     // `--search 1` is the second run `./check` makes within the QUICK tier when P/K is broken and the first run found no
     // failing input (it passes `--tier thorough`). It must not take the thorough tier's minutes: it makes quick-sized
-    // passes over all streams (fresh random cases each pass) until the clock says stop (`--search-seconds N`, default 40).
+    // passes over all streams (fresh random cases each pass) until the clock says stop (`--search-seconds N`, default 30).
     let search = args.extra.get("search").map_or(false, |s| s == "1");
     if search {
-        let cap = std::time::Duration::from_secs(args.extra.get("search-seconds").and_then(|s| s.parse().ok()).unwrap_or(40));
+        let cap = std::time::Duration::from_secs(args.extra.get("search-seconds").and_then(|s| s.parse().ok()).unwrap_or(30));
         let started = std::time::Instant::now();
         let stop = || started.elapsed() > cap;
         let b = Budgets { n_valid: 300, n_redeclare: 120, n_mut: 900, n_junk: 150, n_pairs: 300, n_graph: 480, n_impl: 360 };
